@@ -135,8 +135,11 @@ func (mem *Mempool) eventGetMempool(msg *queue.Message) {
 	} else {
 		isAll = msg.GetData().(*types.ReqGetMempool).GetIsAll()
 	}
-	msg.Reply(mem.client.NewMessage("rpc", types.EventReplyTxList,
-		&types.ReplyTxList{Txs: mem.filterTxList(0, nil, isAll)}))
+	// filterTxList walks the cache, which pushes and the expiry sweep mutate under proxyMtx
+	mem.proxyMtx.Lock()
+	txs := mem.filterTxList(0, nil, isAll)
+	mem.proxyMtx.Unlock()
+	msg.Reply(mem.client.NewMessage("rpc", types.EventReplyTxList, &types.ReplyTxList{Txs: txs}))
 }
 
 // EventDelTxList 获取Mempool中一定数量交易，并把这些交易从Mempool中删除
